@@ -343,7 +343,31 @@ fn run_session_once(ctx: &Ctx, steps: &[Step], rep: &mut Report) -> Result<(), V
         let pos = Pos::from_fen(&st.fen_after).unwrap();
         let deadline = Duration::from_millis(st.time_bound_ms.map_or(UNBOUNDED_DEADLINE_MS, |t| t + ALLOWANCE_MS));
         let limit_class = st.classes.first().copied().unwrap_or("none");
-        let ev = eng.wait_for(deadline, |e| (e.stream == Stream::Out && e.line.starts_with("bestmove")) || (e.stream == Stream::Err && uciproc::is_panic_line(&e.line)) || e.eof);
+        // wait in slices: an engine that sits completely idle (no CPU, no runnable thread) for a
+        // whole slice while it owes an answer is wedged - no need to wait out a 60 s deadline
+        let mut ev = None;
+        let mut waited = Duration::ZERO;
+        let mut idle_wedge = false;
+        while waited < deadline {
+            let slice = (deadline - waited).min(Duration::from_secs(4));
+            let c_before = eng.cpu_ms();
+            ev = eng.wait_for(slice, |e| (e.stream == Stream::Out && e.line.starts_with("bestmove")) || (e.stream == Stream::Err && uciproc::is_panic_line(&e.line)) || e.eof);
+            waited += slice;
+            if ev.is_some() {
+                break;
+            }
+            if slice >= Duration::from_secs(4) {
+                let used = match (c_before, eng.cpu_ms()) {
+                    (Some(a), Some(b)) => b.saturating_sub(a),
+                    _ => u64::MAX,
+                };
+                if used < 20 && eng.threads_runnable().0 == 0 && !uciproc::harness_overloaded() && eng.threads_runnable().0 == 0 {
+                    idle_wedge = true;
+                    break;
+                }
+            }
+        }
+        let deadline = if idle_wedge { waited } else { deadline };
         match ev {
             Some(e) if e.stream == Stream::Out && e.line.starts_with("bestmove") => {
                 let mv = e.line.split_whitespace().nth(1).unwrap_or("").to_string();
@@ -365,7 +389,7 @@ fn run_session_once(ctx: &Ctx, steps: &[Step], rep: &mut Report) -> Result<(), V
             }
             None => {
                 let sv = if eng.starved(cpu0, deadline) { "/starved" } else { "" };
-                return Err(fail("in-time", format!("in-time/no-bestmove/{limit_class}{sv}"), format!("go #{} '{}' at {}: no bestmove within {} ms", i + 1, st.go, st.fen_after, deadline.as_millis()), &eng));
+                return Err(fail("in-time", format!("in-time/no-bestmove/{limit_class}{sv}"), format!("go #{} '{}' at {}: no bestmove within {} ms{}", i + 1, st.go, st.fen_after, deadline.as_millis(), if idle_wedge { " - and the engine has been completely idle (no CPU used, no runnable thread) for the last 4 s: wedged" } else { "" }), &eng));
             }
         }
         let cpu1 = eng.cpu_ms();
@@ -510,6 +534,40 @@ pub fn run(ctx: &Ctx) -> Report {
             }
         }
     }
+    // the fifty-move horizon: sparse endings with the half-move clock at 80-99, searched to depth
+    // 5-8 (or for a second with a deep limit): whatever the engine does about entries and draws
+    // near the horizon, the answer must come
+    let horizon = ctx.tier.pick(160, 3200) / ctx.shard_count() as u32;
+    run_prop(ctx, "c09-fifty-horizon", horizon, 12, (gen::synth_strategy(), 0u8..6), &mut rep, |(ent, gsel), rep| {
+        let mut e = Entropy::new(ent);
+        let mut p = Pos::empty();
+        let wk = e.pick(64);
+        let c: Vec<usize> = (0..64).filter(|&s| (o::file_of(s) - o::file_of(wk)).abs().max((o::rank_of(s) - o::rank_of(wk)).abs()) > 1).collect();
+        p.sq[wk] = o::mk(true, o::K);
+        p.sq[c[e.pick(c.len())]] = o::mk(false, o::K);
+        for _ in 0..1 + e.pick(3) {
+            let t = [o::P, o::P, o::R, o::N, o::B, o::Q][e.pick(6)];
+            let free: Vec<usize> = (0..64).filter(|&s| p.sq[s] == 0 && (t != o::P || (1..=6).contains(&o::rank_of(s)))).collect();
+            p.sq[free[e.pick(free.len())]] = o::mk(e.pick(2) == 0, t);
+        }
+        p.wtm = e.pick(2) == 0;
+        p.hmc = 80 + e.pick(20) as u32;
+        p.fmn = 70 + e.pick(40) as u32;
+        if p.is_valid_start().is_err() || p.legal_moves().is_empty() || p.legal_moves().len() > 30 {
+            return Ok(());
+        }
+        let (go, bound): (String, Option<u64>) = match gsel {
+            0 => ("go depth 5".into(), None),
+            1 => ("go depth 6".into(), None),
+            2 => ("go depth 7".into(), None),
+            3 => ("go depth 12 movetime 1500".into(), Some(1500)),
+            4 => ("go wtime 20000 btime 20000".into(), Some(1000)),
+            _ => ("go depth 8 nodes 300000".into(), None),
+        };
+        let fen = p.to_fen();
+        let st = Step { pre: vec![], position: format!("position fen {fen}"), go, fen_after: fen, time_bound_ms: bound, classes: vec!["fifty-move-horizon(clock 80-99)"], nontrivial: true };
+        run_session(ctx, &[st], rep)
+    });
     // self-play flow: 24-40 consecutive small searches along one game in ONE engine process
     let flows = ctx.tier.pick(16, 320) / ctx.shard_count() as u32;
     let fstrat = (gen::game_strategy(16), proptest::collection::vec(any::<u16>(), 40), 24usize..=40);
@@ -563,7 +621,7 @@ pub fn replay(ctx: &Ctx, case: &Value) -> Report {
 }
 
 pub const LEVEL: &str = "exploration";
-pub const RULE: &str = "UCI sessions against the real engine binary: 1..5 consecutive (position, go) pairs (every third one continues the previous pair's game by 1..3 plies, so its root lies inside the tree the previous go cached), each optionally preceded by idle commands (stop, isready, ucinewgame, setoption, uci); positions with >= 1 legal move from startpos / corpus / synthesised / pattern starts (in-check and near-stalemate positions included) plus up to 30 plies of play, and - only under a time-bounded go - capture-saturated constructions (5-9 queens a side); limits = any subset of {depth 1..255, nodes 1..200000 log-spaced, movetime 0..400 ms, wtime/btime 0..60000 ms, winc/binc 0..100 ms}, with depth <= 5 when nothing else bounds the work. Plus self-play flows: 24-40 consecutive small searches (depth 2-4 / nodes 3000-20000 / movetime 20) along one game in ONE engine process (the engine's answer, a generated reply, go again), and tiny trees under huge budgets (mate in one / bare kings with 'go nodes 200000..3000000' and 'go depth 255'). Oracle per go: exactly one bestmove line, legal per the rules oracle, arriving before min(movetime, own clock + increment) + 3 s (60 s when only depth/nodes bound the search); a search-thread panic on stderr settles 'no bestmove' at once; then isready -> readyok within 3 s; bestmove count == go count at session end. Non-trivial = a limit can cut the first iteration (nodes <= 2000, time bound <= 20 ms, depth <= 2, only the opponent's clock), or the position is in check or has <= 3 legal moves, or it is the 2nd+ go of a session; distinct by (position, go command).";
+pub const RULE: &str = "[also: sparse endings with the half-move clock at 80-99 searched to depth 5-8, a second of movetime or on the game clock] UCI sessions against the real engine binary: 1..5 consecutive (position, go) pairs (every third one continues the previous pair's game by 1..3 plies, so its root lies inside the tree the previous go cached), each optionally preceded by idle commands (stop, isready, ucinewgame, setoption, uci); positions with >= 1 legal move from startpos / corpus / synthesised / pattern starts (in-check and near-stalemate positions included) plus up to 30 plies of play, and - only under a time-bounded go - capture-saturated constructions (5-9 queens a side); limits = any subset of {depth 1..255, nodes 1..200000 log-spaced, movetime 0..400 ms, wtime/btime 0..60000 ms, winc/binc 0..100 ms}, with depth <= 5 when nothing else bounds the work. Plus self-play flows: 24-40 consecutive small searches (depth 2-4 / nodes 3000-20000 / movetime 20) along one game in ONE engine process (the engine's answer, a generated reply, go again), and tiny trees under huge budgets (mate in one / bare kings with 'go nodes 200000..3000000' and 'go depth 255'). Oracle per go: exactly one bestmove line, legal per the rules oracle, arriving before min(movetime, own clock + increment) + 3 s (60 s when only depth/nodes bound the search); a search-thread panic on stderr settles 'no bestmove' at once; then isready -> readyok within 3 s; bestmove count == go count at session end. Non-trivial = a limit can cut the first iteration (nodes <= 2000, time bound <= 20 ms, depth <= 2, only the opponent's clock), or the position is in check or has <= 3 legal moves, or it is the 2nd+ go of a session; distinct by (position, go command).";
 pub const ASSUMPTIONS: &[&str] = &[
     "the rules oracle decides legality of the answer",
     "deadlines are generous stand-ins for 'in time' (limit + 3 s); a harness-side spawn failure or a missing first readyok is reported as inconclusive (exit 2), never as a violation",
